@@ -445,7 +445,15 @@ func (x *Explorer) libModel(st *State, f *Frame, ins ssa.Instruction, key string
 	case "crypto/sha256.Sum256":
 		b := args[0].(VSlice)
 		at := sig.Results().At(0).Type().Underlying().(*types.Array)
-		return VArray{T: at, L: []*Term{UF("sha256row", ArrSort(SInt), st.bval(b))}}, true
+		bv := st.bval(b)
+		row := UF("sha256row", ArrSort(SInt), bv)
+		h := UF("sha256", SInt, bv)
+		// the 32 bytes of the digest, as a byte string, are sha256(input)
+		digest := UF("bval", SInt, row, IntLit(0), IntLit(32))
+		st.addFact(Eq(digest, h))
+		st.addFact(Eq(UF("blen", SInt, digest), IntLit(32)))
+		st.addFact(Eq(UF("sha256^-1#0", SInt, h), bv))
+		return VArray{T: at, L: []*Term{row}}, true
 	case "encoding/hex.EncodeToString":
 		b := args[0].(VSlice)
 		bv := st.bval(b)
